@@ -30,6 +30,7 @@ def decorate(lines, lang_name, rnd, pick, header=False, tags_entry=False):
     texts = render.Texts(rnd, safe_for=(lang_name,))
     out, dec, creators = [], [], []
     in_doc = None           # (quote, pad) while inside a doc-string
+    has_step = False        # a step precedes in the current statement
     for k, ln0 in enumerate(lines):
         ln = dict(ln0)
         c = ln["c"]
@@ -54,7 +55,12 @@ def decorate(lines, lang_name, rnd, pick, header=False, tags_entry=False):
                 ln["pad"] = rnd.choice(PADS)
                 trail = rnd.choice([u"", u"", u"", u" ", u"  \t"])
             if c == "Step" and ln["a"] == "star" and not star_ok(lang_name):
-                ln["a"] = "and"                      # en-tx, sl: no '* ' alias; And is equivalent where * is allowed
+                # en-tx, sl: no '* ' alias; And is equivalent after a step, Given where '*' opens the statement
+                ln["a"] = "and" if has_step else "given"
+            if c in render.STRUCT:
+                has_step = False
+            elif c == "Step":
+                has_step = True
             if c in render.STRUCT or c == "Step":
                 key = class_key(ln)
                 ln["alias"] = pick(key, aliases_for(lg, key), k)
